@@ -767,8 +767,8 @@ def _functions(tree):
     for node in tree.body:
         if isinstance(node, ast.ClassDef):
             for f in node.body:
-                if isinstance(f, ast.FunctionDef) and f.name in ('from_dataset', 'from_sequence', '_get_segment_pixel_array',
-                                                                  '_check_and_cast_pixel_array'):
+                if isinstance(f, ast.FunctionDef) and f.name in ('from_dataset', 'from_sequence', 'extract_from_dataset',
+                                                                  '_get_segment_pixel_array', '_check_and_cast_pixel_array'):
                     out.append((f'{node.name}.{f.name}', f))
     return out
 
@@ -804,3 +804,74 @@ ALIAS_FILES = {'content': 'content.py', 'seg_content': 'seg/content.py', 'seg_so
                'sr_templates': 'sr/templates.py', 'image': 'image.py'}
 for _tag, _file in ALIAS_FILES.items():
     TARGETS[f'T20alias_{_tag}'] = {'file': _file, 'build': make_alias_target(_tag), 'imports': ['HdVerif.Model.Aliasing']}
+
+
+# ----------------------------------------------------------------------------------------------- guard sites (T20sites)
+GUARD_VR = {'_check_code_string': 'CS', '_check_short_string': 'SH', '_check_long_string': 'LO', '_check_short_text': 'ST',
+            '_check_long_text': 'LT'}
+
+
+def _names(e):
+    return {n.id for n in ast.walk(e) if isinstance(n, ast.Name)}
+
+
+def _guard_sites(tree):
+    """(guard, argument text, keyword the guarded value is stored under | None, line) for every guard call of a module:
+    the first later assignment `<obj>.<DICOM keyword> = <expression using the guarded variable>` in an enclosing block"""
+    from pydicom.datadict import tag_for_keyword
+    parents = {}
+    for n in ast.walk(tree):
+        for ch in ast.iter_child_nodes(n):
+            parents[ch] = n
+    out = []
+    for n in ast.walk(tree):
+        if not (isinstance(n, ast.Call) and isinstance(n.func, ast.Name) and n.func.id in GUARD_VR and n.args):
+            continue
+        vars_ = _names(n.args[0])
+        st, found = n, None
+        while st in parents and found is None:
+            p = parents[st]
+            if isinstance(p, ast.For) and st in p.body:
+                vars_ |= _names(p.iter)            # the guarded loop variable ranges over this
+            for field in ('body', 'orelse', 'finalbody'):
+                blk = getattr(p, field, None)
+                if isinstance(blk, list) and st in blk:
+                    for later in blk[blk.index(st):]:
+                        for a in ast.walk(later):
+                            if isinstance(a, ast.Assign) and len(a.targets) == 1 and isinstance(a.targets[0], ast.Attribute) \
+                                    and tag_for_keyword(a.targets[0].attr) is not None and (_names(a.value) & vars_):
+                                found = a.targets[0].attr
+                                break
+                        if found:
+                            break
+            st = p
+            if isinstance(p, ast.FunctionDef):
+                break
+        out.append((n.func.id, ast.unparse(n.args[0]), found, n.lineno))
+    return out
+
+
+def build_sites(_tree):
+    """every call of a valuerep guard in the package, with the VR (pydicom dictionary) of the attribute the value goes to"""
+    from pydicom.datadict import dictionary_VR, tag_for_keyword
+    root = os.path.join(os.environ.get('HD_REPO', '/repo'), 'src', 'highdicom')
+    rows, sig = [], []
+    for dp, _, fs in sorted(os.walk(root)):
+        for f in sorted(fs):
+            if not f.endswith('.py') or f == 'valuerep.py':
+                continue
+            p = os.path.join(dp, f)
+            rel = os.path.relpath(p, root)
+            for g, arg, kw, ln in _guard_sites(ast.parse(open(p).read())):
+                vr = dictionary_VR(tag_for_keyword(kw)) if kw else '?'
+                rows.append(f'("{rel}: {g}({arg}) -> {kw}", "{GUARD_VR[g]}", "{vr}")')
+                sig.append((rel, g, arg, kw, vr))
+    if not rows:
+        raise Unsupported('no guard call found in the package')
+    text = ('/-- every place where a `valuerep` guard protects a value: (site, VR the guard checks, VR of the attribute the value\n'
+            'is stored under according to the DICOM data dictionary) -/\n'
+            'def guardSites : List (String × String × String) := [\n  ' + ',\n  '.join(rows) + '\n]')
+    return text, hashlib.sha256(repr(sig).encode()).hexdigest()
+
+
+TARGETS['T20sites'] = {'file': 'base.py', 'build': build_sites}
